@@ -12,7 +12,10 @@ use sos_core::{
     commit::{CommitProof, CommitTree},
     device::TrustedDevice,
     encode,
-    events::{DeviceEvent, EventLogType},
+    events::{
+        patch::{DeviceDiff, Patch},
+        DeviceEvent, EventLog, EventLogType,
+    },
     AccountId,
 };
 use sos_login::device::DeviceSigner;
@@ -21,7 +24,8 @@ use sos_protocol::{
 };
 use sos_server::AccessControlConfig;
 use sos_signer::ed25519::BinaryEd25519Signature;
-use sos_sync::{SyncPacket, SyncStorage};
+use sos_protocol::RemoteSync;
+use sos_sync::{StorageEventLogs, SyncPacket, SyncStorage, UpdateSet};
 use std::collections::{BTreeMap, HashSet};
 use std::path::Path;
 use vkit::acct::{Backend, Dev};
@@ -48,6 +52,33 @@ struct Prepared {
 
 async fn signer_bytes(dev: &Dev) -> Result<[u8; 32]> {
     Ok(dev.account.device_signer().await?.to_bytes())
+}
+
+/// Forced account update whose device diff holds only the first record of
+/// the client's device log (Trust(D1)): the server's device log is rewritten
+/// and D2 is no longer in it.
+async fn force_drop_d2(dev: &Device) -> Result<()> {
+    let diff = {
+        let acc = dev.account.lock().await;
+        let log = acc.device_log().await?;
+        let log = log.read().await;
+        let all = log.diff_unchecked().await?;
+        let first = all.patch.records().first().cloned().ok_or_else(|| anyhow!("empty device log"))?;
+        match first.decode_event::<DeviceEvent>().await? {
+            DeviceEvent::Trust(_) => {}
+            _ => return Err(anyhow!("first device event is not a trust event")),
+        }
+        let mut t = CommitTree::new();
+        t.insert(first.commit().0);
+        t.commit();
+        DeviceDiff::new(Patch::new(vec![first.clone()]), t.head()?, Some(*first.commit()))
+    };
+    clock::set_device(dev.idx);
+    let r = dev.bridge.force_update(UpdateSet { device: Some(diff), ..Default::default() }).await;
+    if let Err(e) = r.result {
+        return Err(anyhow!("forced update failed: {}", e));
+    }
+    Ok(())
 }
 
 async fn prepare(dir: &Path, server_db: bool) -> Result<Prepared> {
@@ -179,6 +210,20 @@ async fn prepare(dir: &Path, server_db: bool) -> Result<Prepared> {
         server.stop().await;
         fsutil::copy_dir(&srv3, &dir.join("state-no_trusted_device"))?;
         states.push("no_trusted_device".to_string());
+    }
+    // branch: from d1_d2, a forced account update rewrites the device log to [Trust(D1)]
+    {
+        let srv4 = dir.join("server-branch-forced");
+        fsutil::copy_dir(&dir.join("state-d1_d2"), &srv4)?;
+        let server = start_server(&srv4, server_db, None, None).await?;
+        fsutil::copy_dir(&dir.join("a-branch"), &dir.join("a-branch-forced"))?;
+        let a4 = Dev::open(&dir.join("a-branch-forced"), Backend::Fs, account_a, vkit::acct::password()).await?;
+        let dev = Device::connect(a4, 0, &server.origin).await?;
+        force_drop_d2(&dev).await?;
+        dev.close().await;
+        server.stop().await;
+        fsutil::copy_dir(&srv4, &dir.join("state-d2_dropped_by_forced_update"))?;
+        states.push("d2_dropped_by_forced_update".to_string());
     }
     Ok(Prepared {
         dir: dir.to_string_lossy().to_string(),
@@ -395,7 +440,9 @@ async fn run_item(p: &Prepared, it: &Item, work: &Path) -> Value {
                 let mut acc = dev.account.lock().await;
                 acc.patch_devices_unchecked(&[DeviceEvent::Revoke(d2.public_key()), DeviceEvent::Revoke(d1.public_key())]).await?;
             }
-            if it.state != "d1_d2" && dev.sync().await != SyncResult::Ok {
+            if it.state == "d2_dropped_by_forced_update" {
+                force_drop_d2(&dev).await?;
+            } else if it.state != "d1_d2" && dev.sync().await != SyncResult::Ok {
                 return Err(anyhow!("live sync after revoke failed"));
             }
             dev.close().await;
@@ -517,7 +564,7 @@ fn rt() -> tokio::runtime::Runtime {
     tokio::runtime::Builder::new_multi_thread().worker_threads(3).enable_all().build().unwrap()
 }
 
-const STATES: [&str; 5] = ["d1", "d1_d2", "d2_revoked", "d2_retrusted_then_revoked", "no_trusted_device"];
+const STATES: [&str; 6] = ["d1", "d1_d2", "d2_revoked", "d2_retrusted_then_revoked", "no_trusted_device", "d2_dropped_by_forced_update"];
 
 fn main() {
     let args = Args::parse();
@@ -611,6 +658,6 @@ fn main() {
     cov.insert("requests_that_must_be_refused".into(), json!(refused));
     cov.insert("responses_by_status".into(), json!(by_status));
     cov.insert("exhaustive".into(), json!(true));
-    cov.insert("rule".into(), json!("server state in {D1 trusted; D1+D2 trusted; D2 revoked; D2 re-trusted and revoked in one patch} x access config in {none, allow A, allow B, deny A, deny B} (quick: all configs in one state, open config in all states) x 16 route/method pairs (incl. the websocket change feed) x 12 credential forms; every request that must be refused must not be answered 2xx and must leave the server directory (digest of every file) and both accounts' sync status unchanged"));
+    cov.insert("rule".into(), json!("server state in {D1 trusted; D1+D2 trusted; D2 revoked; D2 re-trusted and revoked in one patch; every device revoked; D2 dropped by a forced account update that rewrites the device log} x access config in {none, allow A, allow B, deny A, deny B} (quick: all configs in one state, open config in all states) x 16 route/method pairs (incl. the websocket change feed) x 12 credential forms; every request that must be refused must not be answered 2xx and must leave the server directory (digest of every file) and both accounts' sync status unchanged"));
     std::process::exit(run.finish(cov));
 }
